@@ -1,6 +1,7 @@
 package main
 
 import (
+	"math"
 	"os"
 	"math/big"
 	"reflect"
@@ -44,7 +45,7 @@ func (x *Exec) deepCopyJSON(v Value) Value {
 		}
 		// a number held in an interface travels as JSON text and comes back, decoded into `any`, as the nearest
 		// float64 — whatever integer type it had when it was encoded
-		if b, ok := v.T.Underlying().(*types.Basic); ok && b.Info()&types.IsInteger != 0 {
+		if b, ok := v.T.Underlying().(*types.Basic); ok && b.Info()&types.IsInteger != 0 && !x.jsonExact {
 			if t, isT := v.V.(*Term); isT && t.S == SInt {
 				return &IfaceV{T: types.Typ[types.Float64], V: x.intToFloat(t, v.T)}
 			}
@@ -382,6 +383,29 @@ func (x *Exec) jsonConvert0(v Value, st, dt types.Type, fold bool) (Value, bool)
 				n.Entries = append(n.Entries, &MapEntry{K: e.K, V: cv, Present: e.Present})
 			}
 			return n, true
+		}
+	}
+	// a float64 (what a JSON number becomes inside an `any`) written out again and read into an integer member: the
+	// text of an integral float64 within the integer's range is plain digits, which decode exactly to that float's value
+	// (the rounding happened when the number became a float64); anything else does not decode
+	if sb, ok := st.Underlying().(*types.Basic); ok && sb.Kind() == types.Float64 {
+		if db, ok := dt.Underlying().(*types.Basic); ok && db.Info()&types.IsInteger != 0 {
+			if t, ok := v.(*Term); ok {
+				lo, hi, _ := intRange(dt)
+				if t.S == SFInt {
+					iv := &Term{S: SInt, E: t.E}
+					if x.branch(tAnd(tLe(mkBig(lo), iv), tLe(iv, mkBig(hi)))) {
+						return iv, true
+					}
+					return nil, false
+				}
+				if t.IsConc() {
+					if f, ok := t.C.(float64); ok && f == math.Trunc(f) && f >= -9.2e18 && f <= 9.2e18 {
+						return x.fit(mkInt(int64(f)), dt), true
+					}
+				}
+			}
+			return nil, false
 		}
 	}
 	// named scalar types with the same underlying type (type resultType string)
@@ -1764,6 +1788,60 @@ func stdIntrinsic(name string, fn *ssa.Function) intrinsicFn {
 		return func(x *Exec, f *ssa.Function, a []Value) Value {
 			return x.timeNow(f.Signature.Results().At(0).Type())
 		}
+	// ---- the repo's decoder wrapper (internal/json.Decoder over a bytes.Reader): Decode = Unmarshal of the reader's
+	// bytes; with UseNumber the numbers held in `any` stay exact (json.Number is a text; modelled as the integer itself)
+	case "github.com/modelcontextprotocol/go-sdk/internal/json.NewDecoder":
+		return func(x *Exec, f *ssa.Function, a []Value) Value {
+			st := f.Signature.Results().At(0).Type().(*types.Pointer).Elem()
+			p := &Pointer{Obj: x.newObj(x.zero(st), "json.Decoder")}
+			if x.decoders == nil {
+				x.decoders = map[string]*decoderState{}
+			}
+			x.decoders[ptrKey(p)] = &decoderState{r: a[0]}
+			return p
+		}
+	case "(*github.com/modelcontextprotocol/go-sdk/internal/json.Decoder).UseNumber":
+		return func(x *Exec, f *ssa.Function, a []Value) Value {
+			if p, _ := a[0].(*Pointer); p != nil && x.decoders[ptrKey(p)] != nil {
+				x.decoders[ptrKey(p)].useNumber = true
+			}
+			return nil
+		}
+	case "(*github.com/modelcontextprotocol/go-sdk/internal/json.Decoder).Decode":
+		return func(x *Exec, f *ssa.Function, a []Value) Value {
+			p, _ := a[0].(*Pointer)
+			var ds *decoderState
+			if p != nil {
+				ds = x.decoders[ptrKey(p)]
+			}
+			if ds == nil {
+				x.abort("UNSUPPORTED", "json.Decoder not made by NewDecoder")
+			}
+			riv, _ := ds.r.(*IfaceV)
+			var data Value
+			if riv != nil {
+				if pt, ok := riv.T.(*types.Pointer); ok && pt.Elem().String() == "bytes.Reader" {
+					rs := pt.Elem().Underlying().(*types.Struct)
+					for i := 0; i < rs.NumFields(); i++ {
+						if rs.Field(i).Name() == "s" {
+							data = x.load(sub(riv.V.(*Pointer), i))
+						}
+					}
+				}
+			}
+			if data == nil {
+				x.abort("UNSUPPORTED", "json.Decoder over a reader other than *bytes.Reader")
+			}
+			if ds.used {
+				return x.newErr("EOF")
+			}
+			ds.used = true
+			old := x.jsonExact
+			x.jsonExact = ds.useNumber
+			r := stdIntrinsic("github.com/modelcontextprotocol/go-sdk/internal/json.Unmarshal", nil)(x, nil, []Value{data, a[1]})
+			x.jsonExact = old
+			return r
+		}
 	case "encoding/json.Marshal", "github.com/modelcontextprotocol/go-sdk/internal/json.Marshal", "github.com/segmentio/encoding/json.Marshal":
 		// uninterpreted encoder: one opaque token element remembering the (interface) value
 		return func(x *Exec, _ *ssa.Function, a []Value) Value {
@@ -2066,4 +2144,10 @@ func stdIntrinsic(name string, fn *ssa.Function) intrinsicFn {
 		}
 	}
 	return timeIntrinsic(name, fn)
+}
+
+type decoderState struct {
+	r         Value
+	useNumber bool
+	used      bool
 }
